@@ -282,6 +282,20 @@ theorem C06_pick_json_only {l : List Ent} {n : Str} (h : pickLatest l = some n) 
     · rw [hn] at h; cases h
   exact ⟨hj.1, hj.2, not_meta_of_json hj.2, not_temp_of_json hj.2⟩
 
+
+/-- Discovery never returns a name of the atomic-write temporary shape (`<final>.XXXXXXXX`, no dot
+in the 8-character suffix).  The hypothesis `isAtomicTemp t = true` is decided by the driver on the
+names the real `clematis.io.atomic._make_tmp` produces (monitor `lean.real_temps_have_temp_shape`). -/
+theorem C06_pick_never_temp {l : List Ent} {n t : Str} (h : pickLatest l = some n)
+    (ht : isAtomicTemp t = true) : n ≠ t := by
+  intro e
+  have := (C06_pick_json_only h).2.2.2
+  rw [e, ht] at this
+  cases this
+
+/-- the shape a suffix-preserving temp (`state_A.json.abcd1234.json`) would have is *not* covered -/
+example : isAtomicTemp [115,116,97,116,101,95,65,46,106,115,111,110,46,97,98,99,100,49,50,51,52,46,106,115,111,110] = false := by decide
+
 /-- `None` exactly when the directory holds no `.json` name at all -/
 theorem C06_pick_none_iff (l : List Ent) :
     pickLatest l = none ↔ ∀ e ∈ l, endsWith e.name sDotJson = false := by
